@@ -43,6 +43,7 @@ class Opts:
         self.p_type_override = 0.1
         self.p_param_res_clash = 0.12
         self.p_placeholder_clash = 0.3
+        self.p_zero_size = 0.08
         self.size_thresholds = (0.3, 0.55, 0.65)   # unsized | fresh symbol | repeated symbol | (constant/compound when the incoming size is known)
         self.qubit_mode = False     # generate local_ancillae / positive sizes for the highwater property
         self.__dict__.update(kw)
@@ -343,7 +344,11 @@ def _assign_sizes(rng, node, opts, incoming_known, is_root):
             p["size"] = None
             known[p["name"]] = E.sym("#" + p["name"])
         elif r < th[1]:
-            free = [s for s in POOL + ["S", "W"] if s not in scope and s not in used_syms]
+            bound = set()
+            if node.get("repetition"):
+                sq_ = node["repetition"]["sequence"]
+                bound = {sq_.get("num_terms_symbol"), sq_.get("iterator_symbol")} - {None}
+            free = [s for s in POOL + ["S", "W"] if s not in scope and s not in used_syms and s not in bound]
             if not free:
                 p["size"] = None
                 known[p["name"]] = E.sym("#" + p["name"])
@@ -417,7 +422,10 @@ def _assign_sizes(rng, node, opts, incoming_known, is_root):
             known_out[p["name"]] = k
         else:
             syms = scope + port_syms
-            p["size"] = gen_poly(rng, syms, 1, positive=True) if syms else E.num(rng.randint(1, 4))
+            if rng.random() < opts.p_zero_size:
+                p["size"] = E.num(0)       # an empty register, written as the integer 0 in the document
+            else:
+                p["size"] = gen_poly(rng, syms, 1, positive=True) if syms else E.num(rng.randint(1, 4))
             known_out[p["name"]] = p["size"]
     node["_known_out"] = known_out
 
